@@ -729,6 +729,22 @@ class Desugar(ast.NodeTransformer):
                     and isinstance(g.target, ast.Tuple) and len(g.target.elts) == 2 and not g.is_async:
                 gens.append(ast.comprehension(target=g.target.elts[0], iter=it.args[0], ifs=[], is_async=0))
                 gens.append(ast.comprehension(target=g.target.elts[1], iter=it.args[1], ifs=g.ifs, is_async=0))
+            elif isinstance(it, ast.Call) and ast.unparse(it.func) == "zip" and len(it.args) == 2 and not it.keywords and isinstance(g.target, ast.Tuple) and len(g.target.elts) == 2 \
+                    and all(isinstance(t, ast.Name) for t in g.target.elts) and not g.is_async and len(node.generators) == 1 \
+                    and any(isinstance(a, ast.Call) and ast.unparse(a.func) in ("repeat", "itertools.repeat") and len(a.args) == 1 and not a.keywords
+                            and not any(isinstance(y, (ast.Call, ast.NamedExpr)) for y in ast.walk(a.args[0])) for a in it.args):
+                # for a, b in zip(repeat(X), YS)  ->  for b in YS  with a := X      (an endless repeat of a call-free value paired with each element)
+                ri = 0 if (isinstance(it.args[0], ast.Call) and ast.unparse(it.args[0].func) in ("repeat", "itertools.repeat") and len(it.args[0].args) == 1) else 1
+                X = it.args[ri].args[0]
+                rep_name, other_t, other_it = g.target.elts[ri].id, g.target.elts[1 - ri], it.args[1 - ri]
+                if rep_name != other_t.id and not any(isinstance(y, ast.Name) and y.id == rep_name for y in ast.walk(other_it)):
+                    env = {rep_name: X}
+                    for fld in ("elt", "key", "value"):
+                        if hasattr(node, fld):
+                            setattr(node, fld, _subst(getattr(node, fld), env))
+                    gens.append(ast.comprehension(target=other_t, iter=other_it, ifs=[_subst(c, env) for c in g.ifs], is_async=0))
+                else:
+                    gens.append(g)
             else:
                 gens.append(g)
         node.generators = gens
@@ -857,6 +873,19 @@ class Desugar(ast.NodeTransformer):
                 node = ast.copy_location(ast.For(target=ast.Name(id=v, ctx=ast.Store()), iter=g.iter, body=[bind] + node.body, orelse=[], type_comment=None), node)
                 ast.fix_missing_locations(node)
                 it = node.iter
+        # for v in enumerate(XS[, k]): .. R._make(v) ..   ->   for (v_0, v_1) in enumerate(XS[, k]): .. R(v_0, v_1) ..     (v used only that way)
+        if isinstance(node.target, ast.Name) and isinstance(it, ast.Call) and ast.unparse(it.func) == "enumerate" and 1 <= len(it.args) <= 2 and not node.orelse:
+            v = node.target.id
+            uses = [x for b in node.body for x in ast.walk(b) if isinstance(x, ast.Name) and x.id == v]
+            makes = [x for b in node.body for x in ast.walk(b) if isinstance(x, ast.Call) and isinstance(x.func, ast.Attribute) and x.func.attr == "_make" and isinstance(x.func.value, ast.Name)
+                     and len(x.args) == 1 and not x.keywords and isinstance(x.args[0], ast.Name) and x.args[0].id == v]
+            if uses and len(uses) == len(makes):
+                a_, b_ = f"{v}_0", f"{v}_1"
+                for m_ in makes:
+                    m_.func = m_.func.value
+                    m_.args = [ast.Name(id=a_, ctx=ast.Load()), ast.Name(id=b_, ctx=ast.Load())]
+                node.target = ast.Tuple(elts=[ast.Name(id=a_, ctx=ast.Store()), ast.Name(id=b_, ctx=ast.Store())], ctx=ast.Store())
+                ast.fix_missing_locations(node)
         # for x in CODEC.bread(stream, n): ..   ->   _it = CODEC.bread(stream, n); for x in _it: ..      (the iterable is evaluated once, first)
         if isinstance(it, ast.Call) and isinstance(it.func, ast.Attribute) and it.func.attr in ("bread", "read") and isinstance(it.func.value, ast.Name):
             tmp = f"_it{next(_counter)}"
@@ -1613,9 +1642,16 @@ def flat_iteration(tree):
             visit_GeneratorExp = visit_ListComp = visit_SetComp = _comp
 
             def visit_For(self, node):
+                nonlocal n
                 self.generic_visit(node)
+                # for _, v in np.ndenumerate(self.X) with the index unused: the elements of X in C order, i.e. X.flat
+                if isinstance(node.iter, ast.Call) and ast.unparse(node.iter.func) in ("np.ndenumerate", "numpy.ndenumerate") and len(node.iter.args) == 1 and not node.iter.keywords \
+                        and isinstance(node.target, ast.Tuple) and len(node.target.elts) == 2 and isinstance(node.target.elts[0], ast.Name) and isinstance(node.target.elts[1], ast.Name) \
+                        and not any(isinstance(y, ast.Name) and y.id == node.target.elts[0].id for b in node.body for y in ast.walk(b)) \
+                        and is_flat(ast.Attribute(value=node.iter.args[0], attr="flat", ctx=ast.Load())):
+                    node.iter = ast.copy_location(ast.Attribute(value=node.iter.args[0], attr="flat", ctx=ast.Load()), node.iter)
+                    node.target = node.target.elts[1]
                 if is_flat(node.iter) and isinstance(node.target, ast.Name) and not node.orelse and not _has_jump(node.body):
-                    nonlocal n
                     k = next(_counter)
                     i, j = f"_fi{k}", f"_fj{k}"
                     x = node.iter.value
@@ -2014,6 +2050,10 @@ def projected_snapshots(tree):
                     if isinstance(par, ast.Call) and ast.unparse(par.func) == "len" and len(par.args) == 1:
                         plan.append(("len", par, None))
                         continue
+                    # k in L / k not in L: membership in the projection itself
+                    if isinstance(par, ast.Compare) and len(par.ops) == 1 and isinstance(par.ops[0], (ast.In, ast.NotIn)) and par.comparators[0] is x:
+                        plan.append(("member", par, None))
+                        continue
                     holder, how = None, None
                     if isinstance(par, (ast.comprehension, ast.For)) and par.iter is x:
                         holder, how = par, "plain"
@@ -2035,6 +2075,9 @@ def projected_snapshots(tree):
                 for how, holder, k in plan:
                     if how == "len":
                         holder.args = [copy.deepcopy(X)]
+                        continue
+                    if how == "member":
+                        holder.comparators = [ast.ListComp(elt=copy.deepcopy(E), generators=[ast.comprehension(target=ast.Name(id=v, ctx=ast.Store()), iter=copy.deepcopy(X), ifs=[], is_async=0)])]
                         continue
                     fresh = f"_sv{next(_counter)}"
                     scope = None
@@ -2164,7 +2207,11 @@ def record_locals(tree, nts):
             if args is None:
                 continue
             loads = [x for x in ast.walk(fn) if isinstance(x, ast.Name) and x.id == v and isinstance(x.ctx, ast.Load)]
-            attr_loads = [x for x in ast.walk(fn) if isinstance(x, ast.Attribute) and isinstance(x.value, ast.Name) and x.value.id == v and isinstance(x.ctx, ast.Load) and x.attr in fields]
+            props = NT_PROPS.get(rec.func.id, {})
+            # a property of the record that is one expression over its fields is read as that expression
+            props = {k: pv for k, pv in props.items() if all((isinstance(y.value, ast.Name) and y.value.id == pv[0] and y.attr in fields) for y in ast.walk(pv[1]) if isinstance(y, ast.Attribute) and isinstance(y.value, ast.Name) and y.value.id == pv[0])
+                     and not any(isinstance(y, ast.Name) and y.id == pv[0] and not isinstance(getattr(y, "_p", None), ast.Attribute) for y in [z for z in ast.walk(pv[1]) if isinstance(z, ast.Name)] if not any(isinstance(w, ast.Attribute) and w.value is y for w in ast.walk(pv[1])))}
+            attr_loads = [x for x in ast.walk(fn) if isinstance(x, ast.Attribute) and isinstance(x.value, ast.Name) and x.value.id == v and isinstance(x.ctx, ast.Load) and (x.attr in fields or x.attr in props)]
             if not loads or len(loads) != len(attr_loads):
                 continue
             names = [f"{v}_{f}" for f in fields]
@@ -2181,6 +2228,16 @@ def record_locals(tree, nts):
                 def visit_Attribute(self, node):
                     if isinstance(node.value, ast.Name) and node.value.id == v and isinstance(node.ctx, ast.Load) and node.attr in fields:
                         return ast.copy_location(ast.Name(id=f"{v}_{node.attr}", ctx=ast.Load()), node)
+                    if isinstance(node.value, ast.Name) and node.value.id == v and isinstance(node.ctx, ast.Load) and node.attr in props:
+                        sp, pe_ = props[node.attr]
+
+                        class P(ast.NodeTransformer):
+                            def visit_Attribute(self, nd):
+                                if isinstance(nd.value, ast.Name) and nd.value.id == sp and nd.attr in fields:
+                                    return ast.Name(id=f"{v}_{nd.attr}", ctx=ast.Load())
+                                self.generic_visit(nd)
+                                return nd
+                        return ast.copy_location(P().visit(copy.deepcopy(pe_)), node)
                     self.generic_visit(node)
                     return node
             R().visit(fn)
@@ -2774,7 +2831,12 @@ def dict_records(tree):
                 if isinstance(rest[j], (ast.For, ast.While, ast.If, ast.Try, ast.With, ast.FunctionDef)):
                     ok = False
                     break
-                if isinstance(par, ast.Subscript) and par.value is u and isinstance(par.ctx, ast.Load) and isinstance(par.slice, ast.Constant) and par.slice.value in keys:
+                if isinstance(par, ast.Subscript) and par.value is u and isinstance(par.ctx, ast.Store) and isinstance(par.slice, ast.Constant) and isinstance(par.slice.value, str) \
+                        and par.slice.value.isidentifier() and isinstance(rest[j], ast.Assign) and len(rest[j].targets) == 1 and rest[j].targets[0] is par \
+                        and not any(isinstance(y, ast.Name) and y.id == d for y in ast.walk(rest[j].value)):
+                    # d['k'] = E as a statement: (re)binds that member
+                    plan.append((j, "set", par, par.slice.value))
+                elif isinstance(par, ast.Subscript) and par.value is u and isinstance(par.ctx, ast.Load) and isinstance(par.slice, ast.Constant) and par.slice.value in keys:
                     plan.append((j, "get", par, par.slice.value))
                 elif isinstance(par, ast.Attribute) and par.value is u and par.attr == "pop" and isinstance(parents.get(id(par)), ast.Call) and parents[id(par)].func is par \
                         and len(parents[id(par)].args) == 1 and not parents[id(par)].keywords and isinstance(parents[id(par)].args[0], ast.Constant) and parents[id(par)].args[0].value in keys:
@@ -2797,6 +2859,11 @@ def dict_records(tree):
             repl = {}
             local = lambda k: f"_{d}_{k}"
             for j, kind, node, key in sorted(plan, key=lambda t: t[0]):
+                if kind == "set":
+                    repl[id(node)] = ast.Name(id=local(key), ctx=ast.Store())
+                    if key not in live:
+                        live.append(key)
+                    continue
                 if kind in ("get", "pop"):
                     if key not in live:
                         popped_twice = True
@@ -2828,6 +2895,10 @@ def dict_records(tree):
                     self.generic_visit(node)
                     return node
 
+            # a member read before it was set (key not in the display) is not a bundle
+            if any(kind == "get" and key not in keys and not any(k2 == "set" and key2 == key and j2 < j for j2, k2, _n2, key2 in plan) for j, kind, _n, key in plan):
+                continue
+
             class _Clash(Exception):
                 pass
             saved = copy.deepcopy(fn.body)
@@ -2856,6 +2927,10 @@ def eafp_attribute(tree):
         def visit_Try(self, node):
             self.generic_visit(node)
             nonlocal n
+            # try: B  except E: raise  [else: C]     ==>   B; C        (handlers that only re-raise what they caught change nothing)
+            if not node.finalbody and node.handlers and all(len(h.body) == 1 and isinstance(h.body[0], ast.Raise) and h.body[0].exc is None and h.body[0].cause is None for h in node.handlers):
+                n += 1
+                return node.body + node.orelse
             if node.finalbody or len(node.handlers) != 1 or len(node.body) != 1:
                 return node
             h = node.handlers[0]
@@ -3229,6 +3304,237 @@ def singledispatch_to_if(tree):
     return n
 
 
+def unroll_search_loops(tree):
+    """for t in (e1, e2, ..): if C(t): S(t); break     ==>   if C(e1): S(e1)  elif C(e2): S(e2) ..  else: E
+       else: E
+    (also over `{k1: v1, ..}.items()` / `.keys()` / `.values()` of a dict display: its pairs in display order).  A search over a short
+    literal sequence that stops at the first hit is the if/elif chain over its elements.  Elements free of calls, at most 8,
+    loop variables not read after the loop."""
+    n = 0
+    for fn in [f for f in ast.walk(tree) if isinstance(f, ast.FunctionDef)]:
+        for holder in list(ast.walk(fn)):
+            for field in ("body", "orelse", "finalbody"):
+                blk = getattr(holder, field, None)
+                if not isinstance(blk, list) or not blk or not all(isinstance(b, ast.stmt) for b in blk):
+                    continue
+                for i, st in enumerate(blk):
+                    if not (isinstance(st, ast.For) and len(st.body) == 1 and isinstance(st.body[0], ast.If) and not st.body[0].orelse and st.body[0].body
+                            and isinstance(st.body[0].body[-1], ast.Break)):
+                        continue
+                    inner = st.body[0]
+                    if any(isinstance(y, (ast.Break, ast.Continue)) for b in inner.body[:-1] for y in ast.walk(b)):
+                        continue
+                    it = st.iter
+                    elems = None
+                    if isinstance(it, (ast.Tuple, ast.List)):
+                        elems = list(it.elts)
+                    elif isinstance(it, ast.Call) and isinstance(it.func, ast.Attribute) and it.func.attr in ("items", "keys", "values") and not it.args and isinstance(it.func.value, ast.Dict) \
+                            and all(k is not None for k in it.func.value.keys):
+                        d = it.func.value
+                        elems = [ast.Tuple(elts=[k, v], ctx=ast.Load()) for k, v in zip(d.keys, d.values)] if it.func.attr == "items" else list(d.keys if it.func.attr == "keys" else d.values)
+                    if not elems or len(elems) > 8 or any(isinstance(y, (ast.Call, ast.NamedExpr, ast.Starred)) for e in elems for y in ast.walk(e)):
+                        continue
+                    tnames = [y.id for y in ast.walk(st.target) if isinstance(y, ast.Name)]
+                    if any(isinstance(y, ast.Name) and y.id in tnames for b in blk[i + 1:] for y in ast.walk(b)):
+                        continue
+                    if any(isinstance(y, ast.Name) and y.id in tnames and isinstance(y.ctx, ast.Store) for b in inner.body for y in ast.walk(b)):
+                        continue
+                    arms = []
+                    okk = True
+                    for e in elems:
+                        if isinstance(st.target, ast.Name):
+                            env = {st.target.id: e}
+                        elif isinstance(st.target, ast.Tuple) and isinstance(e, ast.Tuple) and len(e.elts) == len(st.target.elts) and all(isinstance(t, ast.Name) for t in st.target.elts):
+                            env = {t.id: x for t, x in zip(st.target.elts, e.elts)}
+                        else:
+                            okk = False
+                            break
+                        arms.append((_subst(copy.deepcopy(inner.test), env), [_subst(copy.deepcopy(b), env) for b in inner.body[:-1]] or [ast.Pass()]))
+                    if not okk:
+                        continue
+                    chain = list(st.orelse)
+                    for test, body in reversed(arms):
+                        chain = [ast.copy_location(ast.If(test=test, body=body, orelse=chain), st)]
+                    blk[i:i + 1] = chain
+                    n += 1
+                    break
+    if n:
+        ast.fix_missing_locations(tree)
+    return n
+
+
+def expand_decorator_aliases(tree):
+    """def _dec(f): return A(B(f))            and          @_dec def m(..)       ==>      @A @B def m(..)
+    A private module-level function whose body is one return of nested one-argument calls around its parameter is the stack of
+    those decorators (decorators apply bottom-up: @A @B def m is m = A(B(m)))."""
+    n = 0
+    aliases = {}
+    for fn in [f for f in tree.body if isinstance(f, ast.FunctionDef) and f.name.startswith("_") and not f.decorator_list]:
+        body = [b for b in fn.body if not (isinstance(b, ast.Expr) and isinstance(b.value, ast.Constant))]
+        a = fn.args
+        if len(body) != 1 or not isinstance(body[0], ast.Return) or body[0].value is None or len(a.args) != 1 or a.vararg or a.kwarg or a.kwonlyargs or a.defaults:
+            continue
+        chain, cur = [], body[0].value
+        while isinstance(cur, ast.Call) and len(cur.args) == 1 and not cur.keywords and isinstance(cur.func, (ast.Name, ast.Attribute)):
+            chain.append(cur.func)
+            cur = cur.args[0]
+        if chain and isinstance(cur, ast.Name) and cur.id == a.args[0].arg and not any(isinstance(y, ast.Name) and y.id == a.args[0].arg for c in chain for y in ast.walk(c)):
+            aliases[fn.name] = chain
+    if not aliases:
+        return 0
+    for f in [x for x in ast.walk(tree) if isinstance(x, ast.FunctionDef)]:
+        new = []
+        for d in f.decorator_list:
+            if isinstance(d, ast.Name) and d.id in aliases:
+                new += [copy.deepcopy(c) for c in aliases[d.id]]
+                n += 1
+            else:
+                new.append(d)
+        f.decorator_list = new
+    if n:
+        for name in aliases:
+            if not any(isinstance(y, ast.Name) and y.id == name for y in ast.walk(tree)):
+                tree.body = [b for b in tree.body if not (isinstance(b, ast.FunctionDef) and b.name == name)]
+        ast.fix_missing_locations(tree)
+    return n
+
+
+def dataclass_init(tree):
+    """@dataclass class C: a: T; b: U = D; c: V = field(init=False); def __post_init__(self): S
+       ==>   class C: def __init__(self, a, b=D): self.a = a; self.b = b; S
+    The generated constructor of a (non-frozen, slot-less) dataclass is exactly that: one positional-or-keyword parameter per
+    init field in declaration order, stored under its name, then __post_init__.  Only the plain forms are expanded: annotations
+    without value, with a constant default, or `field(init=False)` without default; no InitVar / ClassVar / KW_ONLY, no bases that
+    are dataclasses, no explicit __init__."""
+    n = 0
+    for cls in [c for c in ast.walk(tree) if isinstance(c, ast.ClassDef)]:
+        decs = cls.decorator_list
+        if len(decs) != 1:
+            continue
+        d = decs[0]
+        name = ast.unparse(d.func) if isinstance(d, ast.Call) else ast.unparse(d)
+        if name not in ("dataclass", "dataclasses.dataclass"):
+            continue
+        kws = {k.arg: k.value for k in d.keywords} if isinstance(d, ast.Call) else {}
+        if (isinstance(d, ast.Call) and d.args) or any(k not in ("eq", "repr", "order", "unsafe_hash", "match_args") for k in kws) or not all(isinstance(v, ast.Constant) for v in kws.values()):
+            continue
+        if cls.bases and any(ast.unparse(b) not in ("object", "Sized", "BuildWriteable", "Block", "ABC") for b in cls.bases):
+            continue
+        if any(isinstance(m, ast.FunctionDef) and m.name == "__init__" for m in cls.body):
+            continue
+        # the other generated methods must not come into play: __eq__ is generated unless eq=False or the class defines its own
+        own = {m.name for m in cls.body if isinstance(m, ast.FunctionDef)}
+        flag = lambda k, default: kws[k].value if k in kws else default
+        if (flag("eq", True) and "__eq__" not in own) or flag("order", False) or flag("unsafe_hash", False):
+            continue
+        params, stores, okk = [], [], True
+        anns = [b for b in cls.body if isinstance(b, ast.AnnAssign)]
+        for a in anns:
+            if not isinstance(a.target, ast.Name) or any(t in ast.unparse(a.annotation) for t in ("InitVar", "ClassVar", "KW_ONLY")):
+                okk = False
+                break
+            if a.value is None:
+                if any(p[1] is not None for p in params):
+                    okk = False
+                    break
+                params.append((a.target.id, None))
+                stores.append(a.target.id)
+            elif isinstance(a.value, ast.Constant):
+                params.append((a.target.id, a.value))
+                stores.append(a.target.id)
+            elif isinstance(a.value, ast.Call) and ast.unparse(a.value.func) in ("field", "dataclasses.field") and not a.value.args \
+                    and [k.arg for k in a.value.keywords] == ["init"] and isinstance(a.value.keywords[0].value, ast.Constant) and a.value.keywords[0].value.value is False:
+                pass  # not a parameter, not stored by the constructor
+            else:
+                okk = False
+                break
+        if not okk or not anns:
+            continue
+        post = next((m for m in cls.body if isinstance(m, ast.FunctionDef) and m.name == "__post_init__"), None)
+        if post is not None and (len(post.args.args) != 1 or post.args.args[0].arg != "self" or post.decorator_list
+                                 or any(isinstance(y, (ast.Return, ast.Yield, ast.YieldFrom)) for y in ast.walk(post))):
+            continue
+        body = [ast.Assign(targets=[ast.Attribute(value=ast.Name(id="self", ctx=ast.Load()), attr=nm, ctx=ast.Store())], value=ast.Name(id=nm, ctx=ast.Load()), lineno=cls.lineno) for nm in stores]
+        if post is not None:
+            body += [b for b in post.body if not (isinstance(b, ast.Expr) and isinstance(b.value, ast.Constant))]
+        init = ast.FunctionDef(name="__init__", args=ast.arguments(posonlyargs=[], args=[ast.arg(arg="self")] + [ast.arg(arg=nm) for nm, _ in params], vararg=None, kwonlyargs=[], kw_defaults=[],
+                                                                 kwarg=None, defaults=[dv for _, dv in params if dv is not None]),
+                               body=body or [ast.Pass()], decorator_list=[], returns=None, type_comment=None, lineno=cls.lineno, col_offset=4, type_params=[])
+        first = cls.body.index(anns[0])
+        cls.body = [b for b in cls.body if b not in anns and b is not post]
+        cls.body.insert(min(first, len(cls.body)), init)
+        cls.decorator_list = []
+        n += 1
+    if n:
+        ast.fix_missing_locations(tree)
+    return n
+
+
+def manual_iteration(tree):
+    """it = iter(XS)                                            ==>   for x in XS: BODY
+       while True:                                                     else: H
+           try: x = next(it)  except StopIteration: H  (H leaves: raise / return; or `break`, then there is no else)
+           BODY
+    Driving an iterator by hand is the for-loop; what the handler does when the iterator is exhausted is the loop's else.
+    `it` must not be used anywhere else; BODY has no `break` when H is not `break` (a break would skip the else - there is none to skip
+    in the hand-written form either, so break is allowed only with the `break` handler form)."""
+    n = 0
+    for fn in [f for f in ast.walk(tree) if isinstance(f, ast.FunctionDef)]:
+        for holder in list(ast.walk(fn)):
+            for field in ("body", "orelse", "finalbody"):
+                blk = getattr(holder, field, None)
+                if not isinstance(blk, list) or len(blk) < 2 or not all(isinstance(b, ast.stmt) for b in blk):
+                    continue
+                for i in range(len(blk) - 1):
+                    a, w = blk[i], blk[i + 1]
+                    if not (isinstance(a, ast.Assign) and len(a.targets) == 1 and isinstance(a.targets[0], ast.Name) and isinstance(a.value, ast.Call) and isinstance(a.value.func, ast.Name)
+                            and a.value.func.id == "iter" and len(a.value.args) == 1 and not a.value.keywords):
+                        continue
+                    it = a.targets[0].id
+                    if not (isinstance(w, ast.While) and isinstance(w.test, ast.Constant) and w.test.value is True and not w.orelse and w.body and isinstance(w.body[0], ast.Try)):
+                        continue
+                    tr = w.body[0]
+                    if tr.finalbody or tr.orelse or len(tr.handlers) != 1 or len(tr.body) != 1 or tr.handlers[0].name is not None \
+                            or not (isinstance(tr.handlers[0].type, ast.Name) and tr.handlers[0].type.id == "StopIteration"):
+                        continue
+                    st = tr.body[0]
+                    if not (isinstance(st, ast.Assign) and len(st.targets) == 1 and isinstance(st.value, ast.Call) and isinstance(st.value.func, ast.Name) and st.value.func.id == "next"
+                            and len(st.value.args) == 1 and isinstance(st.value.args[0], ast.Name) and st.value.args[0].id == it):
+                        continue
+                    uses = [y for y in ast.walk(fn) if isinstance(y, ast.Name) and y.id == it]
+                    if len(uses) != 2:
+                        continue
+                    H = tr.handlers[0].body
+                    rest = w.body[1:]
+                    is_break = len(H) == 1 and isinstance(H[0], ast.Break)
+                    leaves = bool(H) and isinstance(H[-1], (ast.Raise, ast.Return))
+                    if not (is_break or leaves):
+                        continue
+
+                    def own_breaks(stmts):
+                        for s_ in stmts:
+                            if isinstance(s_, ast.Break):
+                                return True
+                            if isinstance(s_, (ast.For, ast.While, ast.FunctionDef)):
+                                continue
+                            for f2 in ("body", "orelse", "finalbody"):
+                                if own_breaks(getattr(s_, f2, []) or []):
+                                    return True
+                            if isinstance(s_, ast.Try) and any(own_breaks(h.body) for h in s_.handlers):
+                                return True
+                        return False
+                    if leaves and own_breaks(rest):
+                        continue
+                    loop = ast.copy_location(ast.For(target=st.targets[0], iter=a.value.args[0], body=rest or [ast.Pass()], orelse=[], type_comment=None), w)
+                    # (no break in BODY: the else of such a loop always runs when the loop ends, i.e. it simply follows the loop)
+                    blk[i:i + 2] = [loop] + ([] if is_break else H)
+                    n += 1
+                    break
+    if n:
+        ast.fix_missing_locations(tree)
+    return n
+
+
 def induction_variables(tree):
     """v = A ... for x in XS[lo:]: v += K; USE(v)   ==>   for (_iv, x) in enumerate(XS[lo:], start=lo): USE(v + K * (_iv - lo + 1))
     (and `USE(v); v += K` ==> USE(v + K * (_iv - lo))).  A running address / index that advances by a fixed step per iteration is its
@@ -3314,6 +3620,8 @@ def induction_variables(tree):
 
 
 def desugar_module(tree: ast.Module):
+    expand_decorator_aliases(tree)
+    dataclass_init(tree)
     seek_names(tree)
     operator_names(tree)
     numpy_names(tree)
@@ -3338,8 +3646,10 @@ def desugar_module(tree: ast.Module):
     dtype_names(tree)
     WalrusHoist().run(tree)
     sink_branch_callables(tree)
+    manual_iteration(tree)
     WhileToFor().run(tree)
     induction_variables(tree)
+    unroll_search_loops(tree)
     empty_guards(tree)
     TryFinallyClose().run(tree)
     Desugar().visit(tree)
